@@ -291,6 +291,35 @@ func (s *Sim) ParkedInFunc(taskName, substr string) bool {
 	}
 }
 
+// InFunc reports whether the named task, wherever it is now (parked at a yield or
+// blocked in an operation it entered after its last yield), had a function whose name
+// contains substr on its stack at its last yield. Called from another task's segment
+// the answer is current: the named task has not run since.
+func (s *Sim) InFunc(taskName, substr string) bool {
+	s.mu.Lock()
+	var t *task
+	for _, x := range s.all {
+		if x.name == taskName && x.state != tsDone {
+			t = x
+			break
+		}
+	}
+	s.mu.Unlock()
+	if t == nil || t.npc == 0 {
+		return false
+	}
+	fr := runtime.CallersFrames(t.pcs[:t.npc])
+	for {
+		f, more := fr.Next()
+		if strings.Contains(f.Function, substr) {
+			return true
+		}
+		if !more {
+			return false
+		}
+	}
+}
+
 // adopt registers a goroutine that was not started through Go (a callback run by
 // uninstrumented code). Its name depends on the site only.
 func (s *Sim) adopt(g int64, site string) *task {
